@@ -145,7 +145,10 @@ def run_case(case):
     excess, known, other = e2e.krylov_step_excess(kcalls, hams, snap["target_times"])
     cnt["krylov_steps_monitored"] = len(kcalls)
     for k_, err_, tol_ in other[:2]:
-        viol.append({"key": "C01:in-situ-krylov-step-inaccurate", "msg": f"{fp}: step {k_} local error {err_:.3e} with tolerance {tol_:.1e}"})
+        if k_ < 0:
+            viol.append({"key": "C01:solver-did-not-exponentiate-once-per-step", "msg": f"{fp}: {len(kcalls)} Krylov exponentiations for {nsteps} steps"})
+        else:
+            viol.append({"key": "C01:in-situ-krylov-step-inaccurate", "msg": f"{fp}: step {k_} local error {err_:.3e} with tolerance {tol_:.1e}"})
     if v and known:
         # re-judge with the measured excess of the known Krylov defect added to the budget (global error <= sum of local errors)
         um = "start"
